@@ -38,6 +38,8 @@ type C10Plan struct {
 	Writer   WriterSpec  `json:"writer"`
 	ReprSeed uint64      `json:"repr_seed,omitempty"` // write: proof elements handed over in non-normalised / sign-flipped representations
 	Reuse    bool        `json:"reuse_receiver,omitempty"` // read: the receiver already holds another, earlier read proof
+	ReuseFailed bool     `json:"reuse_after_failed_read,omitempty"` // ... or went through a Read that failed half-way
+	Stream   int         `json:"stream_records,omitempty"` // ipa: this many valid records back to back on ONE stream, read one after the other
 }
 
 type c10 struct{}
@@ -124,6 +126,12 @@ func (*c10) Gen(seed uint64, run int, tier, variant string) interface{} {
 	}
 	p.Op = "read"
 	p.Reuse = r.Chance(20)
+	p.ReuseFailed = p.Reuse && r.Bool()
+	if r.Chance(4) {
+		p.Kind = "ipa"
+		p.Stream = 2 + r.Intn(3)
+		return &p
+	}
 	switch r.Intn(12) {
 	case 0: // honest, chunking/EOF style only
 	case 1, 2: // field-wise boundary substitution
@@ -495,8 +503,8 @@ func doRead(kind string, rd *SimReader, reuse []byte) (o c10read) {
 	case "multi":
 		var mp multiproof.MultiProof
 		if reuse != nil {
-			// the receiver is not fresh: it already went through a successful Read
-			if err := mp.Read(bytes.NewReader(reuse)); err != nil {
+			// the receiver is not fresh: it already went through a Read (successful, or cut short)
+			if err := mp.Read(bytes.NewReader(reuse)); err != nil && len(reuse) == 576 {
 				panic("harness: honest proof does not parse: " + err.Error())
 			}
 		}
@@ -510,8 +518,8 @@ func doRead(kind string, rd *SimReader, reuse []byte) (o c10read) {
 		}
 	case "ipa":
 		var ip ipa.IPAProof
-		if reuse != nil {
-			if err := ip.Read(bytes.NewReader(reuse[32:])); err != nil {
+		if reuse != nil && len(reuse) > 32 {
+			if err := ip.Read(bytes.NewReader(reuse[32:])); err != nil && len(reuse) == 576 {
 				panic("harness: honest proof does not parse: " + err.Error())
 			}
 		}
@@ -551,8 +559,54 @@ func doRead(kind string, rd *SimReader, reuse []byte) (o c10read) {
 	return
 }
 
+// c10stream: several valid IPA proofs back to back on one stream; each Read must return its own
+// record and leave the stream positioned exactly at the next one.
+func c10stream(p *C10Plan) Result {
+	var res Result
+	res.Shape = fmt.Sprintf("ipa stream of %d records chunk=%s", p.Stream, p.Reader.Chunk)
+	var all []byte
+	var recs [][]byte
+	for k := 0; k < p.Stream; k++ {
+		r := c10honest[(p.Base+k)%len(c10honest)][32:]
+		recs = append(recs, r)
+		all = append(all, r...)
+	}
+	rd := NewSimReader(all, p.Reader)
+	res.Nontrivial = true
+	res.fault("records-back-to-back")
+	res.Trace = mix(uint64(p.Stream)*977 + uint64(len(p.Reader.Chunk)))
+	for k := 0; k < p.Stream; k++ {
+		var ip ipa.IPAProof
+		var perr interface{}
+		var err error
+		func() {
+			defer func() { perr = recover() }()
+			err = ip.Read(rd)
+		}()
+		if perr != nil {
+			return mergeViolation(res, "panic", "IPAProof.Read panicked on record %d of a stream: %v", k, perr)
+		}
+		if err != nil {
+			return mergeViolation(res, "rejected-valid", "record %d of %d valid IPA proofs read back to back from one stream (chunk=%s) was rejected: %v", k, p.Stream, p.Reader.Chunk, err)
+		}
+		var w bytes.Buffer
+		ip.Write(&w)
+		if !bytes.Equal(w.Bytes(), recs[k]) {
+			return mergeViolation(res, "not-canonical", "record %d of a stream of IPA proofs decodes to different bytes (the previous Read left the stream misaligned)", k)
+		}
+		if rd.Pos() != 544*(k+1) {
+			return mergeViolation(res, "over-read", "after record %d the stream is at offset %d instead of %d", k, rd.Pos(), 544*(k+1))
+		}
+	}
+	res.OK = true
+	return res
+}
+
 func (*c10) Exec(plan interface{}) Result {
 	p := plan.(*C10Plan)
+	if p.Stream > 0 {
+		return c10stream(p)
+	}
 	var res Result
 	data, class := p.input()
 	nl := natLen(p.Kind)
@@ -569,6 +623,10 @@ func (*c10) Exec(plan interface{}) Result {
 	if p.Reuse && (p.Kind == "multi" || p.Kind == "ipa") {
 		reuse = c10honest[(p.Base+1+len(c10honest))%len(c10honest)]
 		res.fault("receiver-reused")
+		if p.ReuseFailed {
+			reuse = reuse[:32*(1+int(p.RandSeed%16))+int(p.RandSeed>>8%32)] // the earlier Read broke off inside a field
+			res.fault("receiver-reused-after-failed-read")
+		}
 	}
 	got := doRead(p.Kind, rd, reuse)
 	if rd.FaultFired() {
